@@ -127,8 +127,20 @@ KW_NAMES = {
 }
 
 
+def resource_heavy(f: str, arg: Any) -> bool:
+    """json's indent argument allocates indent x depth spaces: a host-resource question, not type containment."""
+    if f != "json":
+        return False
+    try:
+        return abs(float(arg)) > 64
+    except (TypeError, ValueError, OverflowError):
+        return False
+
+
 def gen_filter_case(rng, fnames: list[str], pool: list[Any]) -> dict[str, Any]:
     f = rng.choice(fnames)
+    if f == "json":
+        pool = [v for v in pool if not resource_heavy(f, v)]
     left = rng.choice(pool)
     nargs = rng.choice([0, 1, 1, 1, 2, 2, 3])
     data: dict[str, Any] = {}
@@ -271,6 +283,8 @@ def cases(ctx: core.Ctx):
             data = {"l": pool[li]}
             expr = f"l | {f}"
             if ai is not None:
+                if resource_heavy(f, pool[ai]):
+                    continue
                 data["a0"] = pool[ai]
                 expr += ": a0"
             yield {"kind": "sweep1", "source": "{{ " + expr + " }}", "data": V.enc(data), "mode": "strict", "extra": True}
